@@ -256,6 +256,16 @@ func (_this *Encoder) OnBigDecimalFloat(value *apd.Decimal) {
 		return
 	}
 
+	if value.Form == apd.Finite && value.IsZero() {
+		// Zero takes the same (shortest) form whatever type carries it
+		if value.Negative {
+			_this.writer.WriteZero(-1)
+		} else {
+			_this.writer.WriteZero(1)
+		}
+		return
+	}
+
 	_this.writer.WriteBigDecimalFloat(value)
 }
 
